@@ -3,6 +3,7 @@ Line protocol of the API model (driver side): histories in, responses out.  Not 
 IDs are restricted by the harness to [A-Za-z0-9-]; the empty string is written `%`.
 -/
 import IclModel.Api
+import IclModel.Conc
 namespace Icl.Api.Wire
 open Icl.Api
 
@@ -72,5 +73,54 @@ def dumpStore (s : Store) : String := "+".intercalate (s.map (fun kv => s!"{enId
 
 def parseHistory (s : String) : Option (List Req) :=
   if s == "" || s == "-" then some [] else (s.splitOn "|").mapM parseReq
+
+def parseStore (s : String) : Store :=
+  if s == "" || s == "-" then [] else
+  (s.splitOn "+").filterMap (fun kv =>
+    match kv.splitOn "=" with
+    | [k, f] => (parseFile f).map (fun x => (unId k, x))
+    | _ => none)
+
+def parseEv (s : String) : Option Ev :=
+  if s.startsWith "s" then some (.start (nat (s.drop 1).toString))
+  else if s.startsWith "t" then some (.step (nat (s.drop 1).toString))
+  else none
+
+def parseSched (s : String) : List Ev :=
+  if s == "" || s == "-" then [] else (s.splitOn ",").filterMap parseEv
+
+def dumpTh : Th → String
+  | .idle => "idle"
+  | .ready => "ready"
+  | .locked => "locked"
+  | .got none => "got N"
+  | .got (some f) => s!"got {dumpFile f}"
+  | .committed r => s!"committed {dumpResp r}"
+  | .done r => s!"done {dumpResp r}"
+
+def runApiAux : Store → List Req → List String
+  | _, [] => []
+  | s, r :: rs =>
+    let (s', o) := step s r
+    (dumpResp o ++ "#" ++ dumpStore s') :: runApiAux s' rs
+
+/-- one entry per request: response # store after the request -/
+def runApi (h : String) : String :=
+  match parseHistory h with
+  | none => "bad-history"
+  | some rs => "|".intercalate (runApiAux [] rs)
+
+def runApiFrom (st h : String) : String :=
+  match parseHistory h with
+  | none => "bad-history"
+  | some rs => "|".intercalate (runApiAux (parseStore st) rs)
+
+def runConc (st rq sc : String) : String :=
+  match parseHistory rq with
+  | none => "bad-requests"
+  | some rs =>
+    let c := Conc.run rs (Conc.init (parseStore st) rs.length) (parseSched sc)
+    "|".intercalate (c.ths.map dumpTh) ++ "\t" ++ dumpStore c.store ++ "\t" ++
+      ",".intercalate (c.log.map (fun e => toString e.1)) ++ "\t" ++ (match c.lock with | none => "-" | some i => toString i)
 
 end Icl.Api.Wire
